@@ -15,6 +15,9 @@ fn matrices() -> Vec<(&'static str, Small)> {
         ("deg1and3_3x6", Small::from_rows(6, &[&[0, 1, 3], &[1, 2, 3, 4], &[0, 2, 4, 5]])),
         ("punct2x4", Small::from_rows(4, &[&[0, 1, 2], &[1, 2, 3]])),
         ("chain2x3", Small::from_rows(3, &[&[0, 1], &[1, 2]])),
+        // row weights 3,5,4,5: lighter rows precede heavier ones (scratch buffers grow and are reused)
+        ("irregular4x8", Small::from_rows(8, &[&[0, 1, 4], &[1, 2, 3, 5, 6], &[0, 2, 6, 7], &[1, 3, 4, 5, 7]])),
+        ("hamming3x7", Small::from_rows(7, &[&[0, 1, 2, 4], &[1, 2, 3, 5], &[0, 2, 3, 6]])),
     ]
 }
 
@@ -250,11 +253,11 @@ pub fn run(run: &Run) -> i32 {
         run,
         acc,
         Coverage {
-            rule: "for each of the 36 implementations x 4 matrices: BFS over histories of decode(v, L) calls, v from a menu of ~14 (23 thorough) LLR vectors (codeword signs, single/double errors, contradiction, zeros, +-1e30, all-negative, +-1e-46, 8-bit boundary magnitudes, the historical limit-0 pair) x L in {0,1,2,6[,25]}; state key = the decoder's full derived Debug dump (every field, floats in round-trip form), so merged states are identical objects; search to closure (depth cap 20, 4000 states per machine and 200 violations per machine as safety nets, reported if hit). Oracle per transition: result equals a freshly built decoder's. Non-trivial = transition from a non-initial state whose previous call was not a zero-iteration shortcut.".into(),
+            rule: "for each of the 36 implementations x 6 matrices (regular, with degree-1 and degree-3 variables, punctured, chain, row weights 3-5-4-5, Hamming): BFS over histories of decode(v, L) calls, v from a menu of ~14 (23 thorough) LLR vectors (codeword signs, single/double errors, contradiction, zeros, +-1e30, all-negative, +-1e-46, 8-bit boundary magnitudes, the historical limit-0 pair) x L in {0,1,2,6[,25]}; state key = the decoder's full derived Debug dump (every field, floats in round-trip form), so merged states are identical objects; search to closure (depth cap 20, 4000 states per machine and 200 violations per machine as safety nets, reported if hit). Oracle per transition: result equals a freshly built decoder's. Non-trivial = transition from a non-initial state whose previous call was not a zero-iteration shortcut.".into(),
             exhaustive: all_closed,
             extra,
             graph: Some(graph),
-            assumptions: vec!["LLR vectors outside the op menu and matrices other than the four listed are not explored".into()],
+            assumptions: vec!["LLR vectors outside the op menu and matrices other than the six listed are not explored".into()],
         },
     )
 }
